@@ -34,6 +34,11 @@ def run(sid, tier, props=None):
                 out_lines.append(f"{prop}: {viol[0][:200]} [{time.time() - t0:.0f}s]")
             else:
                 out_lines.append(f"{prop}: rc={q.returncode} [{time.time() - t0:.0f}s]")
+        if props is None:
+            json.dump({"tier": tier, "status": status, "detail": out_lines, "checked_at_verif_commit": subprocess.run(["git", "-C", ROOT, "rev-parse", "--short", "HEAD"], capture_output=True, text=True).stdout.strip()},
+                      open(os.path.join(d, "result.json"), "w"), indent=1)
+        else:
+            json.dump({"tier": tier, "detail": out_lines}, open(os.path.join(d, "result_all_props.json"), "w"), indent=1)
         return sid, status, " | ".join(out_lines)
     finally:
         subprocess.run(["git", "-C", "/repo", "worktree", "remove", "--force", os.path.join(tmp, "wt")], capture_output=True)
